@@ -1,7 +1,7 @@
-(* C09 — the originator obeys flow control and pacing; the responder never over-grants (J1939-21 model). *)
-From J1939 Require Import Base CodecGlue Model21.
-From J1939.gen Require Import Codec Tp21Gen CaGen.
-From J1939P Require Import CodecProofs Flat Tp21Seg Tp21Resp Tp21Orig PacingProofs.
+(* C09 — the originator obeys flow control and pacing; the responder never over-grants (J1939-21 and J1939-22 models). *)
+From J1939 Require Import Base CodecGlue Model21 Model22.
+From J1939.gen Require Import Codec Tp21Gen CaGen Tp22Gen.
+From J1939P Require Import CodecProofs Flat Tp21Seg Tp21Resp Tp21Orig PacingProofs TimeoutProofs MpgProofs PoolProofs Tp22Proofs Tp22Resp Tp22Orig.
 
 (* T09.1: no data packet before a CTS / after the window is used up (session waits, pass emits nothing) *)
 Theorem C09_no_dt_without_cts : forall sa dest n b now nw k,
@@ -64,3 +64,56 @@ Theorem C09_bam_sends_one_and_rearms : forall key now nw n k b,
   (s, OTx (tp21_dt (s_src b) (s_dst b) (dt_payload (s_data b) (s_next b))) :: os, r).
 Proof. exact bam_sends_one_and_rearms. Qed.
 Print Assumptions C09_bam_sends_one_and_rearms.
+
+(* ---------------------------------------------------------------- J1939-22 *)
+(* T09.1 (FD): a session waiting (for a CTS, the acknowledgement, its next paced segment or its BAM interval) whose
+   deadline lies in the future puts nothing on the bus *)
+Theorem C09_fd_waiting_session_silent : forall key now nw m k b,
+  tget (f_snd m) key = Some b -> 0 <= now < t_deadline b ->
+  flat22 (snd_pass22 [key] now nw m k) = flat22 (k m (minw nw (t_deadline b))).
+Proof. exact fd_waiting_session_silent. Qed.
+Print Assumptions C09_fd_waiting_session_silent.
+
+(* T09.1/T09.2 (FD): after CTS(g, x+1) only the segments x+1 .. x+g, in increasing order, at most g of them *)
+Theorem C09_fd_pass_within_grant : forall key now nw m k b w,
+  tget (f_snd m) key = Some b ->
+  t_state b = tp22_st_SENDING_RTS_CTS -> t_waitcts b = Some w ->
+  0 <= t_session b < 16 -> 0 <= t_next b -> t_next b <= w -> w + 1 < 16777216 ->
+  t_deadline b <> 0 -> t_deadline b <= now ->
+  exists os rest, fouts22 (snd_pass22 [key] now nw m k) = os ++ rest /\
+    burst_outs (t_src b) (t_dst b) (t_session b)
+               (OTx (tp22_eom_status (t_src b) (t_dst b) (t_session b) (t_size b) (t_nseg b) (t_pgn b)))
+               (t_next b + 1) (w + 1) os /\
+    (forall o, In o rest -> exists m' nw', In o (fouts22 (k m' nw'))).
+Proof. exact fd_pass_within_grant. Qed.
+Print Assumptions C09_fd_pass_within_grant.
+
+(* T09.2 (FD responder) *)
+Theorem C09_fd_first_grant_bounded : forall maxp limit nseg,
+  Z.min maxp (Z.min limit nseg) <= limit /\ Z.min maxp (Z.min limit nseg) <= maxp /\ Z.min maxp (Z.min limit nseg) <= nseg.
+Proof. exact fd_first_grant_bounded. Qed.
+Print Assumptions C09_fd_first_grant_bounded.
+Theorem C09_fd_later_grants_bounded : forall prio sa dest data now m b,
+  tget (f_rcv m) (tp22_hash (tp22_dt_session_num data) sa dest) = Some b ->
+  fouts22 (process_tp_dt22 prio sa dest data now m) = [] \/
+  exists border mr, q_border b = Some border /\ q_maxrec b = Some mr /\
+    fouts22 (process_tp_dt22 prio sa dest data now m) =
+      [OTx (tp22_cts dest sa (tp22_dt_session_num data) (Z.min mr (q_nseg b - border)) (border + 1) (q_pgn b))] /\
+    Z.min mr (q_nseg b - border) <= mr.
+Proof. exact fd_later_grants_bounded. Qed.
+Print Assumptions C09_fd_later_grants_bounded.
+
+(* T09.3 (FD): one broadcast data frame per interval *)
+Theorem C09_fd_bam_sends_one_and_rearms : forall key now nw m k b seg fr seg',
+  tget (f_snd m) key = Some b -> t_state b = tp22_st_SENDING_BAM ->
+  t_deadline b <> 0 -> t_deadline b <= now ->
+  py_nth (t_data b) (t_next b) = Some seg ->
+  dt_frame (t_src b) (t_dst b) (t_session b) (t_next b + 1) seg = Some (fr, seg') ->
+  let b0 := with_tdata b (py_set (t_data b) (t_next b) seg') in
+  let st := if t_next b + 1 <? t_nseg b then tp22_st_SENDING_BAM else tp22_st_SENDING_EOM_STATUS in
+  let b2 := upd_t b0 st (now + f_bam_iv m) (t_next b + 1) in
+  flat22 (snd_pass22 [key] now nw m k) =
+  let '(s, os, r) := flat22 (k (set_fsnd m (tset (f_snd m) key b2)) (minw nw (now + f_bam_iv m))) in
+  (s, OTx fr :: os, r).
+Proof. exact fd_bam_sends_one_and_rearms. Qed.
+Print Assumptions C09_fd_bam_sends_one_and_rearms.
